@@ -141,6 +141,9 @@ func (e *env) keys(rng *rand.Rand, n int) {
 			e.walk(b, nd.Merkle.String(), int(nd.Height)+1, "from-longest-key", nil)
 			e.r.Count("keys_longest", 1)
 		default:
+			if rng.Intn(3) == 0 {
+				b = 0 // the error must not depend on the batch size
+			}
 			code, _, msg := e.fetch(b, nd.Merkle.String())
 			if code != 409 {
 				e.violate("key|"+nd.State+"|status", fmt.Sprintf("start key of a %s block -> %d %s, expected 409 conflict", nd.State, code, msg), map[string]any{"batchSize": b, "start_key": nd.Merkle.String()})
@@ -150,7 +153,7 @@ func (e *env) keys(rng *rand.Rand, n int) {
 		}
 	}
 	for _, k := range []string{"deadbeef", "zz", refmodel.Hash{1, 2, 3}.String(), "%00", "' OR 1=1 --"} {
-		code, _, msg := e.fetch(1+rng.Intn(5), k)
+		code, _, msg := e.fetch(rng.Intn(6), k) // batch sizes 0..5
 		if code != 404 {
 			e.violate("key|unknown|status", fmt.Sprintf("unknown start key %q -> %d %s, expected 404", k, code, msg), map[string]any{"start_key": k})
 			return
